@@ -128,7 +128,16 @@ func run(s *kernel.Sim, c *scen.Case) {
 	tw := hs.NewTokenWorld(t)
 	var methods []security.AuthMethod
 	alevel := security.SecurityRequired
+	elevel := security.SecurityRequired
 	switch p.Shape {
+	case "claimtobe-optenc":
+		// encryption merely OPTIONAL on both ends: the key agreement still runs, so the
+		// session ends up encrypted and the binding must hold all the same
+		methods = []security.AuthMethod{security.AuthClaimToBe}
+		elevel = security.SecurityOptional
+	case "noauth-optenc":
+		alevel = security.SecurityNever
+		elevel = security.SecurityOptional
 	case "noauth":
 		alevel = security.SecurityNever
 	case "claimtobe", "resumed":
@@ -138,14 +147,14 @@ func run(s *kernel.Sim, c *scen.Case) {
 	}
 	cache := security.NewSessionCache()
 	mkc := func() *security.SecurityConfig {
-		cfg := hs.Cfg(alevel, security.SecurityRequired, methods, hs.AES, 60021)
+		cfg := hs.Cfg(alevel, elevel, methods, hs.AES, 60021)
 		cfg.SessionCache = cache
 		cfg.TrustDomain = tw.Issuer
 		cfg.Token = tw.Token(hs.Now()-10, hs.Now()+3600)
 		return cfg
 	}
 	mks := func() *security.SecurityConfig {
-		cfg := hs.Cfg(alevel, security.SecurityRequired, methods, hs.AES, security.NoCommand)
+		cfg := hs.Cfg(alevel, elevel, methods, hs.AES, security.NoCommand)
 		tw.ServerToken(cfg)
 		return cfg
 	}
@@ -275,7 +284,7 @@ func run(s *kernel.Sim, c *scen.Case) {
 	}
 }
 
-var shapes = []string{"noauth", "claimtobe", "token", "resumed"}
+var shapes = []string{"noauth", "claimtobe", "token", "resumed", "claimtobe-optenc", "noauth-optenc"}
 
 func gen(g *scen.Gen) {
 	seed := g.Seed * 2038074743
